@@ -657,6 +657,21 @@ def B5(ctx):
                 r2 = PEval(body, a2).run(start=start_b)[0]
                 if (r2 & runs) or not any(body.term(x)["k"] == "return" for x in r2):
                     independent = False
+        if which == "max_duration":
+            # the time compared with the limit is the time since the start of the run: `x.elapsed()` of an Instant taken once,
+            # before the iteration loop
+            el = mentions_call(e, "std::time::Instant::elapsed")
+            since_start = False
+            if el is not None and el[2]:
+                srcs = [x for x in deep_sources(body, el[2][0]) if x[0] == "call"]
+                since_start = bool(srcs) and all(x[1] == "std::time::Instant::now" and len(x) > 3 and
+                                                 x[3] not in set().union(*[body.reachable(sx) for sx in body.succs(x[3])]) for x in srcs)
+            if since_start:
+                ctx.ok("B5", CHECK + ":max_duration-since-start", "elapsed() of the Instant taken once before the loop", [site_str(prog, CHECK, b)])
+            else:
+                ctx.bad("B5", CHECK, "max_duration is not compared with the time since the start of the run (the Instant it measures "
+                        "from is taken again inside the loop, or is not an Instant::now() at all)", site_str(prog, CHECK, b),
+                        detail="max_duration-since-start")
         if not independent:
             ctx.bad("B5", CHECK, "the %s limit does not end the run in every configuration of the other limit (%s unset / set and not "
                     "reached): one limit shadows the other" % (which, other), site_str(prog, CHECK, b), detail=which + "-shadowed")
